@@ -345,6 +345,14 @@ class RegexParser:
                     # Treat '-' as literal at end
                     ranges.append((start, start))
                     ranges.append(("-", "-"))
+                elif len(start) == 2 or len(end) == 2:
+                    # A class escape (\d, \w, ...) cannot bound a range: the
+                    # escape, the '-' and the other side are all members
+                    ranges.append((start, start))
+                    ranges.append(("-", "-"))
+                    ranges.append((end, end))
+                elif ord(start) > ord(end):
+                    raise RegExpError("Range out of order in character class")
                 else:
                     ranges.append((start, end))
             else:
@@ -385,6 +393,21 @@ class RegexParser:
                 # These need special handling - return as-is for now
                 # The compiler will expand them
                 return "\\" + escaped
+            if escaped == "u":
+                return self._parse_unicode_escape().char
+            if escaped == "x":
+                return self._parse_hex_escape().char
+            if escaped == "c":
+                ctrl = self._peek()
+                # Inside a class a digit or '_' also names a control character
+                if ctrl is not None and ctrl.isascii() and (
+                    ctrl.isalnum() or ctrl == "_"
+                ):
+                    self._advance()
+                    return chr(ord(ctrl) % 32)
+                # Not a control escape: the backslash is a literal member
+                self.pos -= 1
+                return "\\"
             # Literal escape
             return escaped
 
@@ -500,7 +523,7 @@ class RegexParser:
         # Control character
         if ch == "c":
             ctrl = self._peek()
-            if ctrl is not None and (ctrl.isalpha()):
+            if ctrl is not None and ctrl.isascii() and ctrl.isalpha():
                 self._advance()
                 return Char(chr(ord(ctrl.upper()) - 64))
             # Non-letter after \c: treat as literal \c (backslash + c)
